@@ -12,6 +12,7 @@ from glom.mutation import Assign, Delete, _UNASSIGNABLE_BASE_TYPES, _set_sequenc
 import warnings
 from glom.core import (PATH_STAR, _T_STAR, _T_STARSTAR, glom, T, Spec, Path, _is_spec, format_target_spec_trace, _PKG_DIR_PATH, bbrepr, _MISSING, GlomError)
 from glom.matching import Required, Optional, _precedence, MatchError, _MISSING as _M_MISSING
+from glom.core import _has_callable_glomit, bbformat, _format_t, _format_path, _format_slice, format_invocation, A
 
 
 def invoke_glomit_ref(self, target, scope):
@@ -380,3 +381,137 @@ def register_op_ref(self, op_name, auto_func=None, exact=False):
     self._op_type_map[op_name] = type_map
     self._op_type_tree[op_name] = type_tree
     self._op_auto_map[op_name] = auto_func
+
+
+# ---- message renderers of the error classes (C05: the trace ends with the type and message of the original error) -------------------------
+def coalesce_get_message_ref(self):
+    """CoalesceError: the alternatives tried, and per alternative the class name of the error that ended it (or '<skipped Class>' for a
+    value rejected by skip), then the skip / skip_exc settings when they are not the defaults, then the path"""
+    missed_specs = tuple(self.coal_obj.subspecs)
+    skipped_vals = [v.__class__.__name__ if isinstance(v, self.coal_obj.skip_exc) else '<skipped %s>' % v.__class__.__name__ for v in self.skipped]
+    msg = ('no valid values found. Tried %r and got (%s)' % (missed_specs, ', '.join(skipped_vals)))
+    if self.coal_obj.skip is not _MISSING:
+        msg += f', skip set to {self.coal_obj.skip!r}'
+    if self.coal_obj.skip_exc is not GlomError:
+        msg += f', skip_exc set to {self.coal_obj.skip_exc!r}'
+    if self.path is not None:
+        msg += f' (at path {self.path!r})'
+    return msg
+
+
+def unregistered_get_message_ref(self):
+    """UnregisteredTarget: without any registration for the op a hint to register(); otherwise the target type's name, the op and the sorted
+    names of the types that do support it, then the path when there is one"""
+    if not self.type_map:
+        return ("glom() called without registering any types for operation '%s'. see glom.register() or Glommer's constructor for details." % (self.op,))
+    reg_types = sorted([t.__name__ for t, h in self.type_map.items() if h])
+    reg_types_str = '()' if not reg_types else ('(%s)' % ', '.join(reg_types))
+    msg = ("target type %r not registered for '%s', expected one of registered types: %s" % (self.target_type.__name__, self.op, reg_types_str))
+    if self.path:
+        msg += f' (at {self.path!r})'
+    return msg
+
+
+def check_get_message_ref(self):
+    """CheckError: the path, the sub-spec when it is not T, and the one error or the count and list of errors"""
+    msg = 'target at path %s failed check,' % self.path
+    if self.check_obj.spec is not T:
+        msg += f' subtarget at {self.check_obj.spec!r}'
+    if len(self.msgs) == 1:
+        msg += f' got error: {self.msgs[0]!r}'
+    else:
+        msg += f' got {len(self.msgs)} errors: {self.msgs!r}'
+    return msg
+
+
+def match_get_message_ref(self):
+    """MatchError: the format string (first arg) applied to the remaining args"""
+    fmt, args = self.args[0], self.args[1:]
+    return bbformat(fmt, *args)
+
+
+def assign_get_message_ref(self):
+    return 'could not assign %r on object at %r, got error: %r' % (self.dest_name, self.path, self.exc)
+
+
+def delete_get_message_ref(self):
+    return 'could not delete %r on object at %r, got error: %r' % (self.dest_name, self.path, self.exc)
+
+
+def set_wrapped_ref(self, exc):
+    self._GlomError__wrapped = exc
+
+
+def is_spec_ref(obj, strict=False):
+    """what counts as a spec object: any T expression; strictly also exactly Spec instances; loosely anything with a callable glomit"""
+    if isinstance(obj, TType):
+        return True
+    if strict:
+        return type(obj) is Spec
+    return _has_callable_glomit(obj)
+
+
+# ---- rendering of paths and T expressions (C18: repr; only regression equivalence -- that eval(repr(x)) == x needs the parser and stays bounded)
+def format_path_ref(t_path):
+    """a Path prints as Path(seg, ...): consecutive non-'P' steps are grouped into one T-expression segment, 'P' steps print as their repr;
+    a path without any 'P' step prints as the T expression itself (except the empty path: 'Path()')"""
+    path_parts, cur_t_path = [], []
+    i = 0
+    while i < len(t_path):
+        op, arg = t_path[i], t_path[i + 1]
+        i += 2
+        if op == 'P':
+            if cur_t_path:
+                path_parts.append(cur_t_path)
+                cur_t_path = []
+            path_parts.append(arg)
+        else:
+            cur_t_path.append(op)
+            cur_t_path.append(arg)
+    if path_parts and cur_t_path:
+        path_parts.append(cur_t_path)
+    if path_parts or not cur_t_path:
+        return 'Path(%s)' % ', '.join([_format_t(part) if type(part) is list else repr(part) for part in path_parts])
+    return _format_t(cur_t_path)
+
+
+def format_t_ref(path, root=T):
+    """a T expression prints as the Python expression that records it: root name, then per step .attr / [index or slice or tuple of them] /
+    (call arguments) / .__star__() / .__starstar__(); unary steps wrap what is printed so far (parenthesised when it already contains an
+    operator); binary steps print ' op ' and the argument (a T argument that itself contains an operator is parenthesised; ':' prints as '**');
+    a path that contains a 'P' step is printed as a Path"""
+    prepr = [{T: 'T', S: 'S', A: 'A'}[root]]
+    i = 0
+    while i < len(path):
+        op, arg = path[i], path[i + 1]
+        if op == '.':
+            prepr.append('.' + arg)
+        elif op == '[':
+            if type(arg) is tuple:
+                index = ", ".join([_format_slice(x) for x in arg])
+            else:
+                index = _format_slice(arg)
+            prepr.append(f"[{index}]")
+        elif op == '(':
+            args, kwargs = arg
+            prepr.append(format_invocation(args=args, kwargs=kwargs, repr=bbrepr))
+        elif op == 'P':
+            return _format_path(path)
+        elif op == 'x':
+            prepr.append(".__star__()")
+        elif op == 'X':
+            prepr.append(".__starstar__()")
+        elif op in ('_', '~'):
+            if any([o in path[:i] for o in '+-/%:&|^~_']):
+                prepr = ['('] + prepr + [')']
+            prepr = ['-' if op == '_' else op] + prepr
+        else:
+            formatted_arg = bbrepr(arg)
+            if type(arg) is TType:
+                arg_path = arg.__ops__
+                if any([o in arg_path for o in '+-/%:&|^~_']):
+                    formatted_arg = '(' + formatted_arg + ')'
+            prepr.append(' ' + ('**' if op == ':' else op) + ' ')
+            prepr.append(formatted_arg)
+        i += 2
+    return "".join(prepr)
